@@ -734,6 +734,22 @@ def gen_addr_hist(ctx, cases):
                                         draw_history(rng, segs, rng.choice([2, 5, 10, 16]))]))
 
 
+def gen_big(ctx, cases):
+    """Forced big magnitudes, one or two per run: SHT_NOBITS sections above 1 MiB (they occupy no file space: the image
+    stays small) and one segment of 16 MiB + delta with bytes following it.  The answers are too big for the byte-list
+    model: the spec is the theorems' conclusion in compact form - (length, all zero) for C02_data_nobits, (length,
+    digest) of the slice of the very image for C02_segment_data_file_exact - computed next to the implementation's."""
+    rng = ctx.rng
+    cfg = CFGS[ctx.seed % 4] if ctx.tier == 'quick' else None
+    for c in ([cfg] if cfg else CFGS[:4]):
+        for size in ctx.scale([(1 << 20) + 1, rng.choice([(1 << 20) + 4096, 3 << 20, (5 << 20) - 1])],
+                              [(1 << 20) - 1, 1 << 20, (1 << 20) + 1, 3 << 20, (16 << 20) + 7]):
+            cases.append(('big', ['nobits', c, size, rng.choice([3, 0x403]), rng.choice([1, 16, 4096]), rng.getrandbits(8)]))
+    for c in ([cfg] if cfg else [CFGS[0], CFGS[3]]):
+        for delta in ctx.scale([rng.choice([1, 4097, (1 << 20) + 3])], [1, 4097, (16 << 20) - 1, (16 << 20) + 5]):
+            cases.append(('big', ['segment', c, (16 << 20) + delta, rng.choice([1, 100, 70000]), rng.getrandbits(16)]))
+
+
 def gen_addr_big(ctx, cases):
     """One program header table per run (thorough: one per class) with more than 0xffff entries, PT_LOADs at the
     table indices 65534, 65535, 65536, at the very end and near the start, everything else non-loadable; looked up
@@ -893,6 +909,7 @@ def gen(ctx):
     gen_addr(ctx, cases)
     gen_addr_hist(ctx, cases)
     gen_addr_big(ctx, cases)
+    gen_big(ctx, cases)
     # the stream kind is drawn per case and is the last element of the abstract (replays carry it)
     cases = [(k, a + [draw_kind(ctx.rng, 0.7)]) for k, a in cases]
     gen_sis(ctx, cases)
@@ -1161,6 +1178,14 @@ def _evaluate(ctx, cases):
         elif kind == 'addr_hist':
             cfg, phgap, phextra, segs, ops = a
             w.plan = Img(cfg, [], [tuple(g) for g in segs], phgap=phgap, phextra=phextra, seed=6)
+        elif kind == 'big':
+            if a[0] == 'nobits':
+                _, cfg, size, flags, align, seed = a
+                w.plan = Img(cfg, [dict(type=8, flags=flags, addr=0x10000, offset=BASE, size=size, addralign=align)], [],
+                             length=BASE + 16, seed=seed)
+            else:
+                _, cfg, fsz, trail, seed = a
+                w.plan = Img(cfg, [], [(1, 5, BASE, 0x10000, 0x10000, fsz, fsz + 8, 0x1000)], length=BASE, seed=7)
         elif kind == 'addr_big':
             cfg, phextra, runs, ops = a
             w.plan = BigImg(cfg, [(c, tuple(g)) for c, g in runs], phextra=phextra, seed=7)
@@ -1267,6 +1292,19 @@ def _evaluate(ctx, cases):
             sz = 1 if size is None else size
             w.mi = ask(['addr', w.img, le, is64, mach, pl.phoff, pl.phentsize, len(segs), start, sz])
             w.si = ask(['spec_addr', w.img, le, is64, pl.phoff, pl.phentsize, segs, start, sz])
+        elif kind == 'big':
+            if a[0] == 'nobits':
+                # header-level answers from the driver; the data is compared in compact form (see gen_big)
+                sh = pl.sections[0]
+                o = ['error', b'']
+                w.mi = ask(['sec_obs_at', w.img, le, is64, mach, pl.shoff, pl.shentsize, 1, o, [[0, 1, 2]]])
+                w.si = ask(['spec_sec_obs', w.img, le, is64, 8, sh['flags'], sh['offset'], sh['size'], sh['addralign'], o,
+                            [[0, 1, 2]]])
+            else:
+                import random
+                assert len(w.img) == BASE
+                r = random.Random(a[4])
+                w.img = w.img + r.randbytes(a[2]) + r.randbytes(a[3])    # the segment's bytes, then what follows it
         elif kind == 'addr_big':
             cfg, phextra, runs, ops = a
             dops = [['close', o[1]] if o[0] == 'drop' else o for o in ops]
@@ -1492,6 +1530,43 @@ def _evaluate(ctx, cases):
             impl = impl_call(run)
             ctx.bump('addr_hits', len(offs))
             ctx.record(kind, w.full, impl=impl, spec=spec, model=model_for(w, in_dom, model), in_domain=in_dom, nontrivial=True)
+        elif kind == 'big':
+            def digest(d):
+                import hashlib
+                return [len(d), hashlib.blake2b(d, digest_size=16).digest()] if isinstance(d, bytes) else d
+            if a[0] == 'nobits':
+                size = a[2]
+                sp = answers[w.si]
+                in_dom = sp != 'none'
+
+                def zeros(d):
+                    return [len(d), int(d.count(0) == len(d))] if isinstance(d, bytes) else d
+
+                def run():
+                    elf = open_elf(w.img)
+                    sec = elf.get_section(1)
+                    first = zeros(impl_call(sec.data))
+                    hdr = [int(bool(sec.compressed)), sec.data_size, sec.data_alignment]
+                    other = list(elf.iter_sections())[1]
+                    return [['ok', hdr], first, zeros(impl_call(sec.data)), zeros(impl_call(other.data))]
+                impl = impl_call(run)
+                spec = [sp[1][0], [size, 1], [size, 1], [size, 1]] if in_dom else None
+                ctx.bump('big', 'SHT_NOBITS %d MiB+' % (size >> 20))
+                ctx.record(kind, w.full, impl=impl, spec=spec if in_dom else impl, model=None, in_domain=in_dom,
+                           nontrivial=True, key='big-nobits')
+            else:
+                fsz = a[2]
+                want = digest(w.img[BASE:BASE + fsz])
+
+                def run():
+                    elf = open_elf(w.img)
+                    seg = elf.get_segment(0)
+                    return [digest(impl_call(seg.data)), digest(impl_call(next(elf.iter_segments()).data)),
+                            digest(impl_call(seg.data))]
+                impl = impl_call(run)
+                ctx.bump('big', 'segment 16 MiB+')
+                ctx.record(kind, w.full, impl=impl, spec=[want, want, want], model=None, in_domain=True,
+                           nontrivial=True, key='big-segment')
         elif kind == 'addr_big':
             cfg, phextra, runs, ops = a
             fits, sans = answers[w.si]
